@@ -365,6 +365,13 @@ func genStruct(r *rand.Rand, depth int) *tdesc {
 		f.t = genType(r, depth)
 		if f.t.k == tPtr && r.Intn(3) != 0 {
 			f.nilTag = []string{"nil", "nil", "nilList", "nilString"}[r.Intn(4)]
+			// calibration: `nilString` on a pointer to a struct without required fields is a type whose own
+			// encodings the decoder refuses by design: the all-zero struct encodes as the empty LIST, and an
+			// empty list under nilString is "wrong kind of empty value". Values can drift into that form through
+			// the documented normalisations (c1 80 -> F0 nil -> c0), so the grammar does not build such types.
+			if f.nilTag == "nilString" && f.t.elem.k == tStruct && !f.t.elem.hasRequiredField() {
+				f.nilTag = "nil"
+			}
 		}
 		if firstOpt >= 0 && i >= firstOpt {
 			f.optional = true
@@ -853,6 +860,15 @@ func (g *vgen) val(d *tdesc, f *fdesc) reflect.Value {
 		}
 	}
 	return v
+}
+
+func (d *tdesc) hasRequiredField() bool {
+	for _, f := range d.fields {
+		if !f.ignored && !f.optional && !f.tail {
+			return true
+		}
+	}
+	return false
 }
 
 func (d *tdesc) hasOptionalField() bool {
